@@ -209,10 +209,16 @@ func (or *ObjectRegistry) applyConfig(config map[string]string) {
 			continue
 		}
 
-		if prevEntity != nil {
-			updated[name] = entity
-		} else {
+		if prevEntity == nil {
 			created[name] = entity
+		} else if prevEntity.Spec().Kind() != entity.Spec().Kind() {
+			// The kind changed: the new object can't inherit from an object of
+			// another kind (and may even belong to another watcher), so the old
+			// one is closed and the new one is initialized.
+			deleted[name] = prevEntity
+			created[name] = entity
+		} else {
+			updated[name] = entity
 		}
 		or.entities[name] = entity
 	}
